@@ -625,6 +625,54 @@ func c05Objects(c *Ctx) {
 			c05Compare(c, "objects", p.src, p.want)
 		}
 	}
+	// generated inheritance shapes: 1-3 super templates, each with or without
+	// its own constructor, every template carrying a property and a method; the
+	// sub template's init calls the constructor of every super that has one by
+	// its position in the super list (super[i] is the constructor of the i-th
+	// entry), in ascending and in descending order
+	for n := 1; n <= 3; n++ {
+		for mask := 0; mask < 1<<uint(n); mask++ {
+			for _, desc := range []bool{false, true} {
+				if !c.Mine() {
+					continue
+				}
+				var b strings.Builder
+				var supers, calls, want []string
+				for i := 0; i < n; i++ {
+					fmt.Fprintf(&b, "S%d := {\n  \"p%d\": %d,\n  \"m%d\": func () {\n    return this.p%d + 100\n  }", i, i, i, i, i)
+					if mask&(1<<uint(i)) != 0 {
+						fmt.Fprintf(&b, ",\n  \"init\": func (v) {\n    this.s%d := v\n  }", i)
+						calls = append(calls, fmt.Sprintf("    super[%d](a%d)\n", i, i))
+					}
+					b.WriteString("\n}\n")
+					supers = append(supers, fmt.Sprintf("S%d", i))
+				}
+				if desc {
+					for l, r := 0, len(calls)-1; l < r; l, r = l+1, r-1 {
+						calls[l], calls[r] = calls[r], calls[l]
+					}
+				}
+				var params, args []string
+				for i := 0; i < n; i++ {
+					params = append(params, fmt.Sprintf("a%d", i))
+					args = append(args, fmt.Sprint(10+i))
+				}
+				fmt.Fprintf(&b, "Child := {\n  \"super\": [%s],\n  \"own\": 7,\n  \"init\": func (%s) {\n%s    this.own := 8\n  }\n}\no := new(Child, %s)\n",
+					strings.Join(supers, ", "), strings.Join(params, ", "), strings.Join(calls, ""), strings.Join(args, ", "))
+				b.WriteString("probe(\"own\", o.own)\n")
+				want = append(want, "own=8")
+				for i := 0; i < n; i++ {
+					fmt.Fprintf(&b, "probe(\"inherited-property-%d\", o.p%d)\nprobe(\"inherited-method-%d\", o.m%d())\n", i, i, i, i)
+					want = append(want, fmt.Sprintf("inherited-property-%d=%d", i, i), fmt.Sprintf("inherited-method-%d=%d", i, i+100))
+					if mask&(1<<uint(i)) != 0 {
+						fmt.Fprintf(&b, "probe(\"super-constructor-%d\", o.s%d)\n", i, i)
+						want = append(want, fmt.Sprintf("super-constructor-%d=%d", i, 10+i))
+					}
+				}
+				c05Compare(c, "objects", b.String(), want)
+			}
+		}
+	}
 	// value / reference semantics
 	vr := []prog{
 		{"x := 1\ny := x\ny := 2\nprobe(\"number-by-value\", x)\n", []string{"number-by-value=1"}},
